@@ -14,6 +14,7 @@ def main():
     ap.add_argument('--replay')
     a = ap.parse_args()
     seed = int(os.environ.get('VERIF_SEED', '0') or 0)
+    os.environ['VERIF_TIER_ACTIVE'] = a.tier
     from . import paths
     sys.path.insert(0, paths.VERIF)
     paths.activate()
